@@ -935,6 +935,7 @@ class Case:
                 # died outside a modelled operation (nothing of the modelled tables was pending)
                 self.events.append(dict(req=f"(dump i{r})", kind="crashdump", name="crash-outside", expect=dump))
         fired = ft.fired_at if ft else None
+        self.last_fault_n = ft.n if ft else None
         self.steps.append(("run", r, crash_at, fault_k, res if isinstance(res, str) else "ok", fired))
         if self.on_result is not None:
             self.on_result(self, r, res, crash_at, fault_k, fired)
